@@ -7,7 +7,8 @@ import oracle
 from common import ModelRun, model_classes, cmat, Blocks, crash_result
 from drive import Result
 
-RULE = ("Hypothesis generates heterogeneous lattices (1-3 orbitals, 1-3 spins per site, N<=6 quick / 7 thorough) and 1-5 pieces: every "
+RULE = ("Hypothesis generates heterogeneous lattices (1-3 orbitals, 1-3 spins per site, N<=6 quick / 7 thorough; one case in sixty a d-/f-like "
+        "shell of 4-8 orbitals, up to 10 modes) and 1-5 pieces: every "
         "LatticePresets overload and every Lattice::Term::Presets factory inside its documented domain (same-site and two-site variants; zero, "
         "negative and, in the complex build, complex amplitudes) and raw 2/4/6-operator terms in arbitrary operator order.  With symmetries "
         "ignored the block matrix after Hamiltonian::prepare must equal (1e-12*scale) the Jordan-Wigner matrix of the operator written in the "
